@@ -201,6 +201,36 @@ pub fn unk_layouts() -> Vec<(&'static str, Vec<(u32, u32, Vec<usize>)>)> {
             ],
         ),
         (
+            // a narrow line FOLLOWED by a later, broader line that re-declares its code point:
+            // the later line wins on every shared code point
+            "narrow-then-broad",
+            vec![
+                (sp, sp, vec![CAT_SPACE]),
+                (b, b, vec![CAT_U]),
+                (a, c, vec![CAT_T]),
+            ],
+        ),
+        (
+            // the SPACE line is followed by a later, broader line: U+0020 is NOT a space character here
+            "space-then-broad",
+            vec![
+                (sp, sp, vec![CAT_SPACE]),
+                (0x1F, 0x21, vec![CAT_U]),
+                (a, b, vec![CAT_T]),
+                (c, c, vec![CAT_U]),
+            ],
+        ),
+        (
+            // two lines of one category, the later one starting lower and touching the earlier one
+            "descending-touching",
+            vec![
+                (sp, sp, vec![CAT_SPACE]),
+                (c, c, vec![CAT_U]),
+                (b, b, vec![CAT_T]),
+                (a, a, vec![CAT_T]),
+            ],
+        ),
+        (
             "space-shared",
             vec![
                 (sp, sp, vec![CAT_SPACE, CAT_T]),
